@@ -76,7 +76,7 @@ theorem sflInfo_buyers {t : Tracker} (Q : Aff → Prop) {seller : Aff} {settle :
     · split at h
       · cases h
       · rename_i s1 hs1
-        have hb1 := scanFwd_buyers Q _ future _ s1 hf (by simp) hs1
+        have hb1 := scanFwd_buyers Q _ future _ s1 hf (by simp [initScan]) hs1
         split at h
         · cases h
         · split at h
